@@ -26,7 +26,11 @@ from .functions import XPathFunction
 class MapKeysView(KeysView[Optional[ta.AtomicType]]):
     _mapping: MappingProxyType[Optional[ta.AtomicType], ta.ValueType]
 
-    __slots__ = ()
+    __slots__ = ('_nan_key',)
+
+    def __init__(self, mapping: Any, nan_key: Union[bool, float] = False) -> None:
+        super().__init__(mapping)
+        self._nan_key = float('nan') if nan_key is False else nan_key  # keeps xs:float NaN
 
     def __contains__(self, key: object) -> bool:
         if key is None:
@@ -38,7 +42,7 @@ class MapKeysView(KeysView[Optional[ta.AtomicType]]):
     def __iter__(self) -> Iterator[ta.AtomicType]:
         for k in self._mapping:
             if k is None:
-                yield float('nan')
+                yield self._nan_key
             else:
                 yield k
 
@@ -46,7 +50,11 @@ class MapKeysView(KeysView[Optional[ta.AtomicType]]):
 class MapsItemsView(ItemsView[Optional[ta.AtomicType], ta.ValueType]):
     _mapping: MappingProxyType[Optional[ta.AtomicType], ta.ValueType]
 
-    __slots__ = ()
+    __slots__ = ('_nan_key',)
+
+    def __init__(self, mapping: Any, nan_key: Union[bool, float] = False) -> None:
+        super().__init__(mapping)
+        self._nan_key = float('nan') if nan_key is False else nan_key  # keeps xs:float NaN
 
     def __contains__(self, item: Any) -> bool:
         key, value = item
@@ -66,7 +74,7 @@ class MapsItemsView(ItemsView[Optional[ta.AtomicType], ta.ValueType]):
     def __iter__(self) -> Iterator[tuple[ta.AtomicType, ta.ValueType]]:
         for k in self._mapping:
             if k is None:
-                yield float('nan'), self._mapping[k]
+                yield self._nan_key, self._mapping[k]
             else:
                 yield k, self._mapping[k]
 
@@ -222,7 +230,7 @@ class XPathMap(XPathFunction):
     def keys(self, context: ta.ContextType = None) -> MapKeysView:
         if self._map is None:
             self._map = self._evaluate(context)
-        return MapKeysView(MappingProxyType(self._map))
+        return MapKeysView(MappingProxyType(self._map), self._nan_key)
 
     def values(self, context: ta.ContextType = None) -> ValuesView[ta.ValueType]:
         if self._map is None:
@@ -232,7 +240,7 @@ class XPathMap(XPathFunction):
     def items(self, context: ta.ContextType = None) -> MapsItemsView:
         if self._map is None:
             self._map = self._evaluate(context)
-        return MapsItemsView(MappingProxyType(self._map))
+        return MapsItemsView(MappingProxyType(self._map), self._nan_key)
 
     def match_function_test(self, function_test: ta.SequenceTypesType,
                             as_argument: bool = False) -> bool:
